@@ -17,6 +17,7 @@ import (
 	"fmt"
 	"os"
 	"path/filepath"
+	"reflect"
 	"runtime"
 	"sort"
 	"strconv"
@@ -244,11 +245,56 @@ func coldPhase(rep *report, seed uint64, models, nops int) {
 			}
 			return t.genOp(r)
 		}
+		// first-use writes on the CAN-ID path: a message sent on a bus that uses the builder whose
+		// operations go past bit 31, and that builder itself
+		methodOf := func(ri int, name string, args ...uint64) (roOp, bool) {
+			rc := &t.recvs[ri]
+			for _, mi := range rc.methods {
+				m := rc.v.Type().Method(mi)
+				if m.Name != name || m.Type.NumIn()-1 != len(args) {
+					continue
+				}
+				op := roOp{recv: ri, method: mi, class: name, desc: rc.label + "." + name + "()", lazy: []int{}}
+				for a, v := range args {
+					x := reflect.New(m.Type.In(a + 1)).Elem()
+					x.SetUint(v)
+					op.args = append(op.args, x)
+					op.lazy = append(op.lazy, -1)
+				}
+				return op, true
+			}
+			return roOp{}, false
+		}
+		var ovfMsgs []int
+		for mi, b := range w.msgBus {
+			for _, ob := range w.ovfBuses {
+				if b == ob {
+					ovfMsgs = append(ovfMsgs, t.byLab["msg"][mi])
+				}
+			}
+		}
+		if len(ovfMsgs) > 0 {
+			rep.counters["cold_rounds_with_overflow_builder_messages"]++
+		}
 		for g := 0; g < T; g++ {
 			gr := r.fork(uint64(g + 1))
 			var first roOp
-			switch g % 6 {
-			case 0, 1:
+			switch g % 8 {
+			case 1, 7:
+				if len(ovfMsgs) > 0 {
+					if op, ok := methodOf(ovfMsgs[gr.intn(len(ovfMsgs))], "GetCANID"); ok {
+						first = op
+						break
+					}
+				}
+				first = stringOf(netIdx)
+			case 6:
+				if op, ok := methodOf(t.byLab["builder"][w.ovfBuilder], "Calculate", 1, 0x7ff, 0xff); ok {
+					first = op
+				} else {
+					first = stringOf(netIdx)
+				}
+			case 0:
 				first = stringOf(netIdx)
 			case 2:
 				first = roOp{free: 2, desc: "ExportToMarkdown(net)", class: "ExportToMarkdown"}
@@ -256,6 +302,9 @@ func coldPhase(rep *report, seed uint64, models, nops int) {
 				first = roOp{free: 3, recv: 7, desc: "SaveNetwork(net,enc=7)", class: "SaveNetwork"}
 			case 4:
 				b := gr.intn(len(w.buses))
+				if len(w.ovfBuses) > 0 {
+					b = w.ovfBuses[gr.intn(len(w.ovfBuses))]
+				}
 				first = roOp{free: 1, recv: b, desc: fmt.Sprintf("ExportBus(bus#%d)", b), class: "ExportBus"}
 			default:
 				ms := t.byLab["msg"]
